@@ -72,4 +72,5 @@ for name,desc,f,old,new,props in MUT:
         rows.append((name,desc,tests,out.strip().splitlines()[-1][:100] if tests=="FAIL" else "",res)); print(rows[-1],flush=True)
     finally:
         open(path,'w').write(src)
-json.dump(rows,open('/tmp/encrypt-scratch/mutants_result.json','w'),indent=1)
+os.makedirs(os.path.join(VF,'work'),exist_ok=True)
+json.dump(rows,open(os.path.join(VF,'work','mutants_result.json'),'w'),indent=1)
